@@ -243,7 +243,7 @@ BOUNDS = {
                  "width/patvariants/kwlists": "as in quick",
                  "D_RED": D_RED, "D_FULL": D_FULL},
 }
-CAP_S = {"quick": 120, "thorough": 2400}
+CAP_S = {"quick": 300, "thorough": 3600}
 
 
 # ---- building a case -------------------------------------------------------------------------
